@@ -141,8 +141,24 @@ static int set_family(const char *fam)
 		if (!raid_cpu_has_ssse3()) return 0;
 		raid_rec_ptr[0] = raid_rec1_ssse3; raid_rec_ptr[1] = raid_rec2_ssse3;
 		for (i = 2; i < RAID_PARITY_MAX; ++i) raid_rec_ptr[i] = raid_recX_ssse3;
+		/* and the generator set raid_init() selects with them on a CPU without AVX2 and with slow/absent extended
+		   registers: the decoders regenerate parity through these (raid_delta_gen relies on their store order) */
+		raid_gen_ptr[0] = raid_gen1_sse2; raid_gen_ptr[1] = raid_gen2_sse2;
+		raid_gen3_ptr = raid_gen3_ssse3; raid_genz_ptr = raid_genz_sse2;
+		raid_gen_ptr[3] = raid_gen4_ssse3; raid_gen_ptr[4] = raid_gen5_ssse3; raid_gen_ptr[5] = raid_gen6_ssse3;
 		return 1;
 	}
+#ifdef CONFIG_X86_64
+	if (!strcmp(fam, "ssse3ext")) {
+		if (!raid_cpu_has_ssse3()) return 0;
+		raid_rec_ptr[0] = raid_rec1_ssse3; raid_rec_ptr[1] = raid_rec2_ssse3;
+		for (i = 2; i < RAID_PARITY_MAX; ++i) raid_rec_ptr[i] = raid_recX_ssse3;
+		raid_gen_ptr[0] = raid_gen1_sse2; raid_gen_ptr[1] = raid_gen2_sse2ext;
+		raid_gen3_ptr = raid_gen3_ssse3ext; raid_genz_ptr = raid_genz_sse2ext;
+		raid_gen_ptr[3] = raid_gen4_ssse3ext; raid_gen_ptr[4] = raid_gen5_ssse3ext; raid_gen_ptr[5] = raid_gen6_ssse3ext;
+		return 1;
+	}
+#endif
 	if (!strcmp(fam, "avx2")) {
 		if (!raid_cpu_has_avx2()) return 0;
 		raid_rec_ptr[0] = raid_rec1_avx2; raid_rec_ptr[1] = raid_rec2_avx2;
